@@ -14,6 +14,7 @@ CONSTANTS En,          \* enabled call families (set of strings)
           AllNames,    \* every declared variable name (for derivative predictions)
           SingValues,  \* rational values placed on coordinates to hit singular sets (0, 1, -1)
           Want,        \* which predictions to attach: subset of {"D", "H", "V", "deg"}
+          ObjCands,    \* if non-empty: base handles that may serve as objective (enumerated objects always may)
           Stages,      \* if non-empty: Stages[n] = call families allowed for the n-th call
           FinalEn,     \* if non-empty: call families allowed as the last call of a program
           PRPredict(_) \* prediction for an assembled problem (module Analysis); <<>> when unused
@@ -152,7 +153,8 @@ GenMCmpLit == On("MCmpLit") /\ \E sn \in Senses, a \in Handles, l \in ScalarLits
                  /\ Do(CL(IF sw THEN "MRCmpLit" ELSE "MCmpLit", a, sn, l))
 
 GenProblem == On("Problem") /\ \E a \in Handles, b \in Handles \cup {0}, k \in Handles \cup {0}, sn \in {"minimize", "maximize"} :
-                 /\ K(a, {"S"}) /\ TVars(FH[a].den) # {} /\ (b # 0 => K(b, {"C", "CL"})) /\ (k # 0 => (b # 0 /\ k # b /\ K(k, {"C", "CL"})))
+                 /\ K(a, {"S"}) /\ TVars(FH[a].den) # {} /\ (b # 0 => K(b, {"C", "CL"}))
+                 /\ (ObjCands = {} \/ a \in ObjCands \/ a > NB) /\ (k # 0 => (b # 0 /\ k # b /\ K(k, {"C", "CL"})))
                  /\ (Recent(a) \/ (b # 0 /\ Recent(b)))
                  /\ (k # 0 => "Problem2" \in En)
                  /\ (sn = "maximize" => "Maximize" \in En)
